@@ -39,6 +39,7 @@ from urllib.request import pathname2url
 from urllib.request import url2pathname
 
 import ZConfig
+import ZConfig.cmdline
 import ZConfig.loader
 import ZConfig.url
 
@@ -266,7 +267,8 @@ def generate(rng, tier, index):
     if rng.random() < 0.3:
         top_lines.append('  <key name="od" datatype="string" '
                          'default="left\u2028right"/>')
-    top_lines += ['  <multikey name="k" datatype="string"/>',
+    top_lines += ['  <key name="ov" datatype="string" default="unset"/>',
+                  '  <multikey name="k" datatype="string"/>',
                   '  <multisection type="st" name="*" attribute="s"/>']
     if have_b2:
         top_lines.append('  <multisection type="st2" name="*" '
@@ -304,6 +306,7 @@ def generate(rng, tier, index):
             "schema_files": sch_files, "types": sorted(types),
             "expect_k": expect_k, "expect_s": expect_s,
             "header_lines": header, "bom": rng.random() < 0.3,
+            "ov_loader": rng.random() < 0.5,
             "fragment_case": rng.choice(
                 ["include", "extends", "import-src", "loadurl-config",
                  "loadurl-schema", "loadurl-schema-same-loader"])}
@@ -777,7 +780,18 @@ def _execute(plan, out, root, root_b, scratch):
         want_b = {"k": ["T-" + x for x in plan["expect_k"]],
                   "s": [[n, ["T-" + x for x in ks]]
                         for n, ks in plan["expect_s"]]}
-        ld = ZConfig.loader.ConfigLoader(schema)
+        if plan.get("ov_loader"):
+            # the one loader carries a command-line override: every load
+            # through it, by whatever entry point, has the overridden value
+            ld = ZConfig.cmdline.ExtendedConfigLoader(schema)
+            ld.addOption("ov=from the command line")
+            ov = "from the command line"
+            probe("same-loader-with-override")
+        else:
+            ld = ZConfig.loader.ConfigLoader(schema)
+            ov = "unset"
+        want = dict(want, ov=ov)
+        want_b = dict(want_b, ov=ov)
         if len(plan["config_order"]) > 1:
             # first a load through this loader that FAILS inside the deepest
             # included resource (a stray line), then the file is repaired:
@@ -806,6 +820,7 @@ def _execute(plan, out, root, root_b, scratch):
                 def run3():
                     cfg, _h = _enter(entry, cfull, ld.loadURL, ld.loadFile)
                     return {"ok": True, "got": {
+                        "ov": cfg.ov,
                         "k": list(cfg.k),
                         "s": [[x.getSectionName(), list(x.k)]
                               for x in cfg.s]}}
@@ -887,7 +902,7 @@ def _has_ref(plan, fc):
 # ---------------------------------------------------------------------------
 # adjunct: url helper invariants over all short strings
 
-ALPHABET = ["a", "C", ":", "/", "\\", "#", ".", "f", "i", "l", "e"]
+ALPHABET = ["a", "C", ":", "/", "\\", "#", ".", "file:", "FILE:", "fiLe:", "e"]
 _SCHEME = re.compile(r"[A-Za-z][A-Za-z0-9+.\-]*:")
 
 
